@@ -94,7 +94,7 @@ func init() {
 		},
 		Cases: func(tier string, seed uint64) int {
 			if tier == "thorough" {
-				return 6000
+				return 30000
 			}
 			return 1500
 		},
